@@ -544,8 +544,17 @@ def c11_sharp(ctx, case):
         r = r.real.copy()
     sig = {"clause": "sharp"}
     ctx.sig_on_exception = sig
-    A, e = lp.ac2poly(r)
-    k1, r0 = lp.ac2rc(r)
+    try:
+        A, e = lp.ac2poly(r)
+        k1, r0 = lp.ac2rc(r)
+    except ValueError as exc:
+        if "singular" in str(exc) and kappa >= 1e8:
+            # the sequence handed over is the *rounded* autocorrelation of the model: at a prediction-error ratio of 1e-8 .. 1e-10
+            # its rounding (eps kappa of a late reflection coefficient) can make it numerically indefinite, and the recursion
+            # rightly refuses it (a thorough run: 15 coefficients of modulus 0.9, kappa 9e9).  Counted, not asserted.
+            ctx.exclude("rounded autocorrelation numerically indefinite (kappa >= 1e8): refused by the recursion")
+            return
+        raise
     A, k1 = np.asarray(A), np.asarray(k1)
     tol = 1e-10 * kappa
     ctx.check(np.all(np.isfinite(A)) and np.all(np.isfinite(k1)) and np.isfinite(e), "non-finite output for an admissible set", sig=sig)
